@@ -1241,7 +1241,7 @@ fn main() {
     }
     if args.case.is_none() {
         let mut rng = Rng::new(args.seed);
-        let n = args.n.unwrap_or(if args.thorough() { 6000 } else { 150 });
+        let n = args.n.unwrap_or(if args.thorough() { 3000 } else { 150 });
         for i in 0..n {
             let mut r = rng.fork();
             let case = gen_case(&mut r, args.thorough());
